@@ -53,6 +53,12 @@ def doc_stream(rng, tier, n_ast, n_mut, n_unwrap, n_junk, delims=None, ast_kw=No
         yield gen.mutate(rng, d, ds, de), ds, de
     for d in gen.g_unwrap_random(rng, n_unwrap):
         yield d, "<", ">"
+    for i in range(n_unwrap):
+        g = gen.DocGen(rng, depth=rng.choice([2, 3]), p_unwrap=0.7, p_ready=0.8, p_skip=0.05, p_wrapper_tags=0.6, p_inline=0.2, max_items=3)
+        items = g.doc()
+        if rng.random() < 0.7:
+            items.insert(0, gen.Line("pre"))
+        yield gen.render(items, final_nl=rng.random() < 0.8), "<", ">"
     for i in range(n_junk):
         ds, de = gen.DELIMS[i % len(gen.DELIMS)]
         al = gen.atoms_for(ds, de) + ["tl", "rm", "/", " to='2000-01-01 00:00:00'", " name='a'", " unwrap-block", " skip"]
@@ -88,6 +94,13 @@ class C01(Base):
             yield self.mk(d, ds, de, cfg_pool(rng) if rng.random() < 0.3 else proto.DEFAULT_CFG, "doc")
         for d in gen.g_unwrap_exhaustive(quick(tier, 2, 3)):
             yield self.mk(d, "<", ">", proto.DEFAULT_CFG, "unwrap-exhaustive")
+        # tags on the wrapper lines of (nested) unwrap-blocks
+        for i in range(quick(tier, 2500, 60000)):
+            g = gen.DocGen(rng, depth=rng.choice([2, 3, 3]), p_unwrap=0.7, p_ready=0.8, p_skip=0.05, p_wrapper_tags=0.6, p_inline=0.2, max_items=3)
+            items = g.doc()
+            if rng.random() < 0.7:
+                items.insert(0, gen.Line("pre"))
+            yield self.mk(gen.render(items, final_nl=rng.random() < 0.8), "<", ">", proto.DEFAULT_CFG, "wrapper-tags")
 
     def oracle(self, case, impl, spec):
         for op, r in zip(API_OPS, impl):
